@@ -50,8 +50,8 @@ def TI (t : Th) : Prop :=
     | .boot | .submit => t.b.pc = .start ∧ t.b.prog.kind = .batch ∧ t.b.result = []
     | .iter => t.b.prog.kind = .batch ∧ t.b.pc ≠ .start ∧ t.b.pc ≠ .done
     | .stopping => t.b.prog.kind = .stopper ∧ t.b.pc ≠ .start ∧ t.b.pc ≠ .done
-    | .upstop => t.b.pc = .done ∧ t.a.pc ≠ .start ∧ t.a.pc ≠ .done
-    | .shutdown | .fin => t.b.pc = .done)
+    | .upstop => (t.b.pc = .done ∧ (t.b.prog.kind = .batch ∨ t.b.prog.kind = .stopper)) ∧ t.a.pc ≠ .start ∧ t.a.pc ≠ .done
+    | .shutdown | .fin => t.b.pc = .done ∧ (t.b.prog.kind = .batch ∨ t.b.prog.kind = .stopper))
   | .l1 => t.a.prog.kind = .producer
   | .l2 =>
     t.b.prog.kind = .producer ∧
@@ -66,8 +66,24 @@ def HoldsI (t : Th) : Prop := t.role = .l2 ∧ (t.x = .deq ∨ t.x = .lockRel)
 
 instance (t : Th) : Decidable (HoldsI t) := by unfold HoldsI; infer_instance
 
+/-- the second-level task has seen the END of the input queue (`StopIteration` out of `next(DequeueIterator(Q1))`) and
+is on its way out through a clean `_stop_enqueue`, or it has finished: then enqueueing on the input queue is done (it
+was exhausted, or the task stopped it: `_maybe_stop_upstream`, fix 091db8d) -/
+def Owes (t : Th) : Prop :=
+  t.role = .l2 ∧
+  ((t.x = .lockRel ∧ (match t.hand with | .stop _ => True | _ => False)) ∨
+   (t.x = .idle ∧ tRegion t.b.pc = true ∧ t.b.reraise = none) ∨
+   (t.x = .idle ∧ t.b.pc = .done))
+
 structure Inv (c : Cfg) : Prop where
   ti : ∀ t ∈ c.ths, TI t
+  /-- a second-level task ends only after the input queue is done -/
+  d1 : ∀ t ∈ c.ths, Owes t → c.s1.enqueueDone = true
+  /-- once the caller iterates, every task is submitted -/
+  sub : ∀ t, c.ths[0]? = some t → t.cpc = .boot ∨ t.cpc = .submit ∨ c.ths.length - 1 ≤ c.nsub
+  /-- a FIFO pool starts its tasks in submission order -/
+  pre : c.fifo = true → ∀ (i j : Nat) (ti tj : Th), i < j → c.ths[i]? = some ti → c.ths[j]? = some tj →
+    tj.started = true → ti.started = true
   role0 : ∀ (tid : Tid) (t : Th), c.ths[tid]? = some t → (t.role = .cons ↔ tid = 0)
   ilock : ∀ (tid : Tid) (t : Th), c.ths[tid]? = some t → (c.ilock = some tid ↔ HoldsI t)
   ilockLt : ∀ u, c.ilock = some u → u < c.ths.length
@@ -93,20 +109,56 @@ inductive ILockStep (c : Cfg) (tid : Tid) (t t' : Th) : Option Tid → Prop wher
   | acq : c.ilock = none → HoldsI t' → ILockStep c tid t t' (some tid)
   | rel : c.ilock = some tid → ¬ HoldsI t' → ILockStep c tid t t' none
 
+/-- the part of a step the auxiliary invariants (`d1`, `sub`, `pre`) read -/
+structure StepAux (c : Cfg) (tid : Tid) (t t' : Th) (s1' : Shared) (ns : Nat) : Prop where
+  mono : c.s1.enqueueDone = true → s1'.enqueueDone = true
+  owes : Owes t' → s1'.enqueueDone = true
+  sub : c.nsub ≤ ns ∧ (t.role = .cons → t'.cpc = .boot ∨ t'.cpc = .submit ∨ c.ths.length - 1 ≤ ns)
+  st' : t'.started = true
+  st : t.started = true ∨ c.gate tid = true
+
 theorem good_mk {c : Cfg} {tid : Tid} {t t' : Th} {s1' s2' : Shared} {il : Option Tid} {ca : List Elem} {ns : Nat}
     (hg : Good c) (ht : c.ths[tid]? = some t) (hr : t'.role = t.role) (hti : TI t')
-    (hil : ILockStep c tid t t' il)
+    (hil : ILockStep c tid t t' il) (hA : StepAux c tid t t' s1' ns)
     (h1 : Queue.Live { sh := s1', ths := (q1cfg c).ths.set tid (v1 t') })
     (h2 : Queue.Live { sh := s2', ths := (q2cfg c).ths.set tid (v2 t') })
     (hc1 : s1'.timeout = false ∧ s1'.ignoreError = false) (hc2 : s2'.timeout = false ∧ s2'.ignoreError = false) :
     Good { c with s1 := s1', s2 := s2', ths := c.ths.set tid t', ilock := il, cache := ca, nsub := ns } := by
   have hi := hg.inv
   have htid : tid < c.ths.length := (List.getElem?_eq_some_iff.mp ht).1
-  refine ⟨⟨?_, ?_, ?_, ?_, hc1.1, hc1.2, hc2.1, hc2.2, hi.gen⟩, ?_, ?_⟩
+  refine ⟨⟨?_, ?_, ?_, ?_, ?_, ?_, ?_, hc1.1, hc1.2, hc2.1, hc2.2, hi.gen⟩, ?_, ?_⟩
   · intro u hu
     rcases List.mem_or_eq_of_mem_set hu with hu | rfl
     · exact hi.ti u hu
     · exact hti
+  · intro u hu ho
+    rcases List.mem_or_eq_of_mem_set hu with hu | rfl
+    · exact hA.mono (hi.d1 u hu ho)
+    · exact hA.owes ho
+  · intro u hu
+    show u.cpc = .boot ∨ u.cpc = .submit ∨ (c.ths.set tid t').length - 1 ≤ ns
+    rw [List.length_set]
+    rcases getElem?_set_cases ht hu with ⟨h0, rfl⟩ | ⟨_, hu'⟩
+    · subst h0
+      exact hA.sub.2 ((hi.role0 0 t ht).mpr rfl)
+    · rcases hi.sub u hu' with h | h | h
+      · exact .inl h
+      · exact .inr (.inl h)
+      · exact .inr (.inr (Nat.le_trans h hA.sub.1))
+  · intro hf i j ti tj hij hti' htj' hs
+    have hf' : c.fifo = true := hf
+    rcases getElem?_set_cases ht hti' with ⟨rfl, rfl⟩ | ⟨hni, hti''⟩
+    · exact hA.st'
+    · rcases getElem?_set_cases ht htj' with ⟨rfl, rfl⟩ | ⟨hnj, htj''⟩
+      · rcases hA.st with h | h
+        · exact hi.pre hf' i j ti t hij hti'' ht h
+        · unfold Cfg.gate at h
+          simp only [hf', Bool.not_true, Bool.false_or, Bool.and_eq_true, List.all_eq_true] at h
+          apply h.2
+          rw [List.mem_take_iff_getElem]
+          have hlt : i < c.ths.length := (List.getElem?_eq_some_iff.mp hti'').1
+          exact ⟨i, by rw [Nat.lt_min]; exact ⟨hij, hlt⟩, (List.getElem?_eq_some_iff.mp hti'').2⟩
+      · exact hi.pre hf' i j ti tj hij hti'' htj'' hs
   · intro j u hu
     rcases getElem?_set_cases ht hu with ⟨rfl, rfl⟩ | ⟨_, hu⟩
     · rw [hr]; exact hi.role0 j t ht
@@ -161,13 +213,22 @@ theorem q2cfg_init (cap1 cap2 bm1 bm2 mw : Nat) (ns : Option Nat) (fwd : Bool) (
 
 theorem good_init (cap1 cap2 bm1 bm2 mw : Nat) (ns : Option Nat) (inputs : List InSpec) (gens : List Nat) :
     Good (init cap1 cap2 bm1 bm2 mw ns false inputs gens) := by
-  refine ⟨⟨?_, ?_, ?_, ?_, rfl, rfl, rfl, rfl, rfl⟩, ?_, ?_⟩
+  refine ⟨⟨?_, ?_, ?_, ?_, ?_, ?_, ?_, rfl, rfl, rfl, rfl, rfl⟩, ?_, ?_⟩
   · intro t ht
     simp only [init, List.mem_cons, List.mem_append, List.mem_map] at ht
     rcases ht with rfl | ⟨i, _, rfl⟩ | ⟨g, _, rfl⟩
     · simp [TI, mkCons, Prog.kind]
     · simp [TI, mkL1, Prog.kind]
     · simp [TI, mkL2, Prog.kind]
+  · intro t ht ho
+    exfalso
+    simp only [init, List.mem_cons, List.mem_append, List.mem_map] at ht
+    rcases ht with rfl | ⟨i, _, rfl⟩ | ⟨g, _, rfl⟩ <;> simp [Owes, mkCons, mkL1, mkL2, tRegion] at ho
+  · intro t ht
+    simp only [init, List.getElem?_cons_zero, Option.some.injEq] at ht
+    subst ht
+    exact .inl rfl
+  · intro hf; cases hf
   · intro tid t ht
     cases tid with
     | zero =>
